@@ -122,7 +122,7 @@ func genCase(t *rapid.T) Case {
 			}
 			c.Ops = append(c.Ops, Op{"SetDashes", a})
 		default:
-			c.Ops = append(c.Ops, Op{"DrawPath", []float64{f(t, "x", -20, 60), f(t, "y", -20, 60), f(t, "pw", 1, 20), f(t, "ph", 1, 20), float64(rapid.IntRange(0, 2).Draw(t, "shape"))}})
+			c.Ops = append(c.Ops, Op{"DrawPath", []float64{f(t, "x", -20, 60), f(t, "y", -20, 60), f(t, "pw", 1, 20), f(t, "ph", 1, 20), float64(rapid.IntRange(0, 4).Draw(t, "shape"))}})
 		}
 	}
 	c.Ops = append(c.Ops, Op{"DrawPath", []float64{f(t, "x", -20, 60), f(t, "y", -20, 60), f(t, "pw", 1, 20), f(t, "ph", 1, 20), 0}})
@@ -188,6 +188,16 @@ func shapeOf(a []float64) *canvas.Path {
 		return canvas.Rectangle(a[2], a[3])
 	case 1:
 		return canvas.Ellipse(a[2]/2, a[3]/2)
+	case 3: // a horizontal line: its bounds have no height
+		p := &canvas.Path{}
+		p.MoveTo(0, 0)
+		p.LineTo(a[2], 0)
+		return p
+	case 4: // a vertical line
+		p := &canvas.Path{}
+		p.MoveTo(0, 0)
+		p.LineTo(0, a[3])
+		return p
 	default:
 		p := &canvas.Path{}
 		p.MoveTo(0, 0)
@@ -585,8 +595,19 @@ func checkCase(c Case, r *vf.R) error {
 				for _, pl := range oracle.Sample(segs, 64) {
 					pts = append(pts, pl.P...)
 				}
-				if e.style.stroke.A != 0 && e.style.width > 0 {
+				// (the style the library handed to the renderer decides: a stroke is dropped when the first gap of the
+				// dash pattern covers the whole path)
+				if call.Style.HasStroke() {
 					hw = e.style.width / 2
+				} else {
+					// a path that is only filled and has no extent in one direction paints nothing: not content
+					pb := oracle.EmptyBox()
+					for _, q := range pts {
+						pb = pb.Extend(q)
+					}
+					if pb.X1-pb.X0 == 0 || pb.Y1-pb.Y0 == 0 {
+						continue
+					}
 				}
 			} else {
 				pts = []oracle.Pt{{X: 0, Y: 0}, {X: float64(e.img[0]), Y: 0}, {X: float64(e.img[0]), Y: float64(e.img[1])}, {X: 0, Y: float64(e.img[1])}}
